@@ -170,5 +170,31 @@ int main(int argc, char** argv) {
     sb_light_player_t pl; sb_light_player_init(&pl,&lp);
     sb_rgb_color_t c = sb_light_player_get_color_at(&pl, 1000); printf("%d %d %d\n", c.red, c.green, c.blue);
   }
+  if (which == 21) { /* D20: touches returns u = 1 when the value is reached at the end of the segment although it is reached earlier inside it:
+                        altitude Bezier 0, 3000, 4000, 3000 (= 9000u - 6000u^2) crosses 3000 at u = 0.5 and ends on it; takeoff altitude 3000 */
+    uint8_t tr[] = {1, 0,0, 0,0, 0,0, 0,0,          /* scale 1, start (0,0,0), yaw 0 */
+                    0x20, 0x10,0x27,                 /* cubic z, 10 s */
+                    0xb8,0x0b, 0xa0,0x0f, 0xb8,0x0b, /* 3000, 4000, 3000 */
+                    0x10, 0x10,0x27, 0x70,0x17 };     /* linear z to 6000, 10 s */
+    sb_trajectory_t t; sb_trajectory_init_from_buffer(&t, heapcopy(tr, sizeof tr), sizeof tr);
+    sb_poly_t p; float cs[] = {0, 9000, -6000}; sb_poly_make(&p, cs, 3);
+    float u = -1; sb_bool_t r = sb_poly_touches(&p, 3000, &u);
+    printf("touches=%d u=%g (first crossing is at u=0.5)\n", r, u);
+    float tt = sb_trajectory_propose_takeoff_time_sec(&t, 3000, 1000000, INFINITY);
+    printf("takeoff time=%g (first crossing at 5 s, travel time 0.003 s: expected ~4.997)\n", tt);
+    return (u > 0.6f || tt > 6.0f) ? 1 : 0;
+  }
+  if (which == 22) { /* D21: the quadratic formula cancels when the leading coefficient nearly vanishes: the x axis with Bezier points
+                        1, -1674, -1674, 1 is exactly 1 - 5025u + 5025u^2, but the binary32 conversion leaves a cubic coefficient of -1.2e-4;
+                        the derivative's root 0.5 is then computed as 0 and the bounding box misses the minimum -1255.25 */
+    uint8_t tr[] = {1, 1,0, 0,0, 0,0, 0,0,
+                    0x02, 0x10,0x27, 0x76,0xf9, 0x76,0xf9, 0x01,0x00 };
+    sb_trajectory_t t; sb_trajectory_init_from_buffer(&t, heapcopy(tr, sizeof tr), sizeof tr);
+    sb_bounding_box_t box; sb_trajectory_get_axis_aligned_bounding_box(&t, &box);
+    sb_trajectory_player_t pl; sb_trajectory_player_init(&pl, &t);
+    sb_vector3_with_yaw_t v; sb_trajectory_player_get_position_at(&pl, 5.0f, &v);
+    printf("box x = [%g, %g], position at t=5 s: x = %g\n", box.x.min, box.x.max, v.x);
+    return (v.x < box.x.min - 1) ? 1 : 0;
+  }
   return 0;
 }
